@@ -17,8 +17,13 @@ import sys
 import time
 from pathlib import Path
 
-VERIF = Path(__file__).resolve().parents[1]
-REPO = "/repo"
+MAIN_VERIF = Path(__file__).resolve().parents[1]
+# by default the evaluation applies the patch to /repo itself and runs /verif's check (undone straight afterwards); with
+# SEED_WS=<dir> it uses scratch worktrees <dir>/repo and <dir>/verif of the same commits instead, so several evaluations can
+# run in parallel without touching /repo
+WS = os.environ.get("SEED_WS")
+VERIF = Path(WS) / "verif" if WS else MAIN_VERIF
+REPO = str(Path(WS) / "repo") if WS else "/repo"
 PY = "/venv/bin/python"
 
 TESTS = {
@@ -80,7 +85,7 @@ def main() -> int:
         meta["demo_patched_rc"] = rc1
         meta["demo_patched_tail"] = out1[-600:]
         t0 = time.time()
-        env = dict(os.environ, VERIF_SEED=os.environ.get("VERIF_SEED", "0"))
+        env = dict(os.environ, VERIF_SEED=os.environ.get("VERIF_SEED", "0"), VERIF_REPO=REPO)
         rcc, outc = sh(["./check", prop, "--tier", "quick"], cwd=str(VERIF), timeout=5400, env=env)
         meta["check"] = {"cmd": f"./check {prop} --tier quick", "rc": rcc, "wall_s": round(time.time() - t0, 1),
                          "lines": [l for l in outc.splitlines() if l.startswith(("VIOLATION", "KNOWN-FINDING", f"[{prop}]"))][:12]}
@@ -90,6 +95,7 @@ def main() -> int:
                 rp = l.split("replay=")[1].split()[0]
                 try:
                     d = json.loads(Path(rp).read_text())
+                    meta.setdefault("replays", []).append({"key": d.get("key") or d.get("kind"), "what": str(d.get("what"))[:300]})
                     keys.append(d.get("key") or d.get("kind"))
                 except Exception:
                     pass
@@ -100,6 +106,8 @@ def main() -> int:
         sh(["git", "-C", REPO, "checkout", "--", "."])
         # the run above rewrote evidence / Gen from the patched tree: put the committed (clean-tree) versions back
         sh(["git", "-C", str(VERIF), "checkout", "--", "evidence", "lean/VgiVerif/Gen", "lean/GenBaseline"])
+        if WS:
+            sh(["rm", "-rf", str(VERIF / "replays")])
     if with_tests:
         files = TESTS.get(prop, [])
         wt = f"/tmp/seedwt-{name}"
@@ -119,7 +127,7 @@ def main() -> int:
     ok = meta["demo_clean_rc"] == 0 and meta.get("demo_patched_rc", 0) != 0 and not meta.get("existing_tests", {}).get("lost")
     meta["confirmed"] = ok
     if ok:
-        dst = VERIF / "seeded" / name
+        dst = MAIN_VERIF / "seeded" / name
         dst.mkdir(parents=True, exist_ok=True)
         for f in ("patch.diff", "demo.py", "notes.md"):
             if (src / f).exists():
